@@ -30,7 +30,7 @@ WideNout == {1, 3}
 WideUnused == {{}, {3, 10}}
 WideFilter(r) == /\ r.fault = "none" /\ r.optRaiseAt = 0 /\ ~r.strict /\ ~r.param /\ r.nchwIn \in {"none", "first"}
                  /\ r.nchwOut \in {"none", "first"} /\ r.inNames \in {"none", "ok"} /\ r.outNames \in {"none", "ok"}
-                 /\ r.outKind \in {"computed", "duplicate"}
+                 /\ r.outKind \in {"computed", "duplicate", "folds_to_duplicate"}
 
 InNames == {"none", "ok", "dup", "wrong_len", "collide_param", "collide_output"}
 OutNames == {"none", "ok", "dup", "wrong_len", "collide_param"}
@@ -44,7 +44,10 @@ Requests ==
      paramUsed : BOOLEAN,
      inNames : InNames, outNames : OutNames,
      nchwIn : NchwSel, nchwOut : NchwSel,
-     outKind : {"computed", "alias_input", "constant", "duplicate"},   \* what the result leaves are
+     \* what the result leaves are.  "folds_to_duplicate": the last leaf is a Transpose / Reshape / Cast ROUND TRIP of
+     \* the leaf before it -- two distinct values after lowering that the optimizer folds into one; the interface must
+     \* still have one output per leaf with a name of its own (OutputsPerLeaf, NamesApplied)
+     outKind : {"computed", "alias_input", "constant", "duplicate", "folds_to_duplicate"},
      fault : Faults,
      optRaiseAt : 0..NPass,                    \* 0 = optimizer does not fail
      strict : BOOLEAN]
@@ -58,10 +61,10 @@ WellFormedReq(r) ==
     /\ (r.inNames = "dup" => r.nin >= 2) /\ (r.outNames = "dup" => r.nout >= 2)
     /\ (r.inNames = "collide_output" => r.outNames = "ok")
     /\ (r.outKind = "alias_input" => r.nin >= 1 /\ 0 \notin r.unused)
-    /\ (r.outKind = "duplicate" => r.nout >= 2)
+    /\ (r.outKind \in {"duplicate", "folds_to_duplicate"} => r.nout >= 2)
     \* "duplicate": the LAST TWO leaves are one value; with three leaves the first may be layout-flagged
     /\ (r.outKind \in {"alias_input", "constant"} => r.nchwOut = "none")
-    /\ (r.outKind = "duplicate" /\ r.nout = 2 => r.nchwOut = "none")
+    /\ (r.outKind \in {"duplicate", "folds_to_duplicate"} /\ r.nout = 2 => r.nchwOut = "none")
     /\ ReqFilter(r)
     /\ (r.nchwIn # "none" => r.nin >= 1)
     /\ (r.nchwIn = "dup_index" => r.nin >= 1) /\ (r.nchwOut = "dup_index" => r.nout >= 1)
